@@ -123,6 +123,27 @@ func Predict(cs *ClientSpec) (preds []Pred, complete bool, closes bool, resets b
 				// to 255" and "1 for RESTART" (ambiguity band): outside the model
 				return preds, false, closes, resets
 			}
+			// the handler may call Reply several times (a first value the encoder refuses,
+			// then a fallback): the effective reply is the first sendable one
+			if len(pr.Step.Extra) > 0 {
+				all := append([]BodySpec{}, pr.Step.Extra...)
+				if pr.Step.Reply != nil {
+					all = append([]BodySpec{*pr.Step.Reply}, all...)
+				}
+				nSendable := 0
+				for i := range all {
+					if all[i].Sendable() {
+						nSendable++
+						if nSendable == 1 {
+							eff := all[i]
+							pr.Step.Reply = &eff
+						}
+					}
+				}
+				if nSendable > 1 {
+					return preds, false, closes, resets // several successful replies: handler misuse, outside the model
+				}
+			}
 			replySeq := 0
 			if pr.Step.Reply != nil && pr.Step.Reply.Sendable() && h.Seq != 255 {
 				pr.Reply = true
